@@ -51,7 +51,7 @@ func runC04(c *Ctx) {
 			if w == "traced" && !c.Thorough() {
 				d = depth - 1
 			}
-			c.runBFS(limModel(cfg, c04Hooks(level)), mc.BFSOptions{MaxDepth: d, DevBound: c.Pick(1, 2), MaxStates: 1500000})
+			c.runBFS(limModel(cfg, c04Hooks(level)), mc.BFSOptions{MaxDepth: d, DevBound: c.Pick(1, 2), MaxStates: c.Pick(1500000, 4000000)})
 		}
 	}
 	_ = fmt.Sprint
